@@ -18,8 +18,11 @@ TEXT = {
         category='proof',
         text='get_perturbed_rho and get_rho are verified for all shapes against rho[i,j,k] = sum_l q[l]*(f[i,j,k,l] - feq[i,l]) '
              '(resp. without feq) with four nested loop invariants over uninterpreted finite sums, frame included.',
-        note=PROOF_NOTE + 'The link "sum_l q[l] u[l] = integral of the interpolant" is C09; the global-radius row lookup of the '
-             'caller (DensityFinder) is not yet under contract in this check.',
+        note=PROOF_NOTE + 'The link "sum_l q[l] u[l] = integral of the interpolant" is C09. Class level: DensityFinder.getPerturbedRho / '
+             'getRho are verified to hand the kernels the whole local block, the quadrature weights and the rows starts_r + a of the '
+             'equilibrium table (the point\'s own global radius); feq_vector and DensityFinder.__init__ are verified to fill that table '
+             'with f_eq(r_a, v_l) for every global radius and velocity node from the constants object given, and to take the weights '
+             'from an interpolator on the velocity spline space given. Complex density storage and grid reuse: bounded part only.',
         technique='nested loop invariants with finite-sum function symbols, z3'),
     'C07': dict(
         category='proof',
